@@ -165,3 +165,49 @@ func HarnessC13_CloseWithWaitingConsumer() {
 	vfAssert(ch.closed, "Close returns while a consumer is waiting")
 	vfReach("end")
 }
+
+// the teardown on the client side is guaranteed even if the transport fails
+func HarnessC13_CloseWithFailingTransport() {
+	vfLoopBound(120)
+	tds, hc := hNewConn(512)
+	a, b := hNewChannel(tds, 1), hNewChannel(tds, 2)
+	hc.failAt = hc.nwrites + 1 // the next write (the teardown packet) fails
+	viaConn := vfBool("viaConn")
+	var err error
+	if viaConn {
+		err = tds.Close()
+		vfAssert(a.closed && b.closed, "Conn.Close closes every channel although the transport fails")
+		vfAssert(hc.closed, "Conn.Close closes the transport")
+	} else {
+		err = a.Close()
+	}
+	vfAssert(err != nil, "the failed teardown is reported")
+	vfAssert(a.closed, "the channel is closed although its teardown could not be sent")
+	_, registered := tds.tdsChannels[a.channelId]
+	vfAssert(!registered, "the closed channel is unregistered")
+	_, e2 := a.NextPackage(vfNewCtx("user"), false)
+	vfAssert(errors.Is(e2, ErrChannelClosed), "calls on it report the closed condition")
+	vfReach("end")
+}
+
+var errC13Callback = errors.New("harness: callback failed")
+
+// draining after a failed callback honours the caller's context: with the rest
+// of the response never arriving the call returns once the context is done
+func HarnessC13_DrainHonoursContext() {
+	vfLoopBound(120)
+	tds, _ := hNewConn(512)
+	ch := hNewChannel(tds, 0)
+	ch.packageCh <- &ReturnStatusPackage{ReturnValue: 1}
+	var ctx context.Context
+	if vfBool("alreadyCancelled") {
+		c, cancel := vfCtxWithCancel(vfNewCtx("user"))
+		cancel()
+		ctx = c
+	} else {
+		ctx = vfCtxDeadlineWhileWaiting()
+	}
+	_, err := ch.NextPackageUntil(ctx, true, func(Package) (bool, error) { return false, errC13Callback })
+	vfAssert(err != nil, "the call returns with an error once its context is done")
+	vfReach("end")
+}
